@@ -26,6 +26,14 @@ check("C17",
       "Coq vm_compute over tables regenerated from source each run (exhaustive)",
       "DESIGN.md 5 C17")
 
+check("C08",
+      "Coq theorems over executable models of both register files: read-after-write with truncation to the architectural width, A/B|BA, IL/IH|I, FC/FZ|F overlap, IL clears IH, frame conditions, "
+      "snapshot->fresh and 20-byte blob round trips, all for every well-formed state (shown reachable by induction over any write sequence); the Rust hash-map file (separate F/FC/FZ entries, defaults) "
+      "is proved to refine the Python file through an abstraction function, hence identical read-backs for op sequences of any length (induction). Both models are tied to Registers/CPURegistersSnapshot and LlamaState/collect/apply/pack by a correspondence run each time.",
+      "Trusted: Coq kernel, extraction, harness drivers, generator. Modelled not verified: the get/set/snapshot/blob functions of both sides (bit operations transcribed as mod/div arithmetic). Rust IMR pseudo-register excluded.",
+      "Coq proof (refinement + induction, lia) + extracted-model correspondence vs Python and Rust",
+      "DESIGN.md 5 C08")
+
 NOT_APPLICABLE = {}
 
 def build():
